@@ -253,7 +253,7 @@ impl Property for ReportProp {
     }
     fn budget(&self, tier: Tier) -> u64 {
         match tier {
-            Tier::Quick => 4_000,
+            Tier::Quick => 12_000,
             Tier::Thorough => 400_000,
         }
     }
@@ -417,14 +417,14 @@ impl Property for ReportProp {
     }
     fn rule(&self) -> String {
         if self.id == "C11" {
-            "Each evaluation renders one findings map through the real generate_report under a seeded iteration order and reads the report back: (a) end-to-end, findings = whatever the real walkers returned for a generated tree under a seeded listing schedule; (b) synthetic maps (any subset of patterns, 1-6 files per pattern, names with ':' / spaces / multi-byte / heading-like text, 1-8 lines incl. 0). Oracle: the multiset of (pattern, file, line) parsed back (lists after '### Lines', split at the last ':', attributed to the unique pattern whose section text precedes the list) equals the findings; exactly one section per pattern with findings, none otherwise. Non-trivial = >=2 patterns and some pattern with >=2 files; distinct = distinct hash of (findings, iteration orders).".into()
+            "Each evaluation renders one findings map through the real generate_report under a seeded iteration order and reads the report back: (a) end-to-end, findings = whatever the real walkers returned for a generated tree under a seeded listing schedule; (b) synthetic maps (any subset of patterns, 1-6 files per pattern, names with ':' / spaces / multi-byte / heading-like text, 1-8 lines incl. 0). Oracle: the multiset of (pattern, file, line) parsed back (every line '- <file>:<int>', split at the last ':', attributed to the nearest explanatory section text before it; no other decoration of the report is assumed) equals the findings; exactly one section per pattern with findings, none otherwise. Non-trivial = >=2 patterns and some pattern with >=2 files; distinct = distinct hash of (findings, iteration orders).".into()
         } else {
             "Same runs as C11, judged for totals and headings: '(Total Optimizations N)' / '(Total Vulnerabilities N)' equals the number of entries listed under sections of that category; an overview is present iff the category has findings; every vulnerability section lies under the heading of its severity; a severity heading is printed iff a section of that severity exists. Additionally the complete sub-space 16 vulnerability-pattern subsets x 24 iteration orders x 2 multiplicity shapes (768 cases). Non-trivial = a vulnerability pattern plus at least one other pattern; distinct = distinct hash of (findings, iteration orders).".into()
         }
     }
     fn assumptions(&self) -> Vec<String> {
         vec![
-            "trusted table: configuration name -> module holding the explanatory section text (sim/src/report.rs section_rows)".into(),
+            "trusted table: configuration name -> module holding the explanatory section text (sim/src/report.rs section_rows); entries are recognised as lines of the form '- <file>:<int>'".into(),
             "trusted table: severity of the four vulnerability patterns, taken from the property text".into(),
             "findings maps have at least one file per pattern and one line per file (the shapes analyze_dir can produce)".into(),
             "the input space is sampled by a seeded generator; simulation contributes the iteration/listing orders under which every map is rendered".into(),
